@@ -283,6 +283,13 @@ def _run(ctx, a):
         discharged = len(obligations) - len(bad)
         if bad:
             ctx.proof_broken = "axiom audit failed for: %s" % json.dumps(bad)
+        if ctx.tier == "thorough":
+            # second opinion: the toolchain's independent re-checker replays the compiled .olean
+            with BuildLock():
+                rc_lc, out_lc = sh(["lake", "env", "leanchecker", "AfkakProps." + pid], cwd=LEAN, timeout=1800)
+            ctx.leanchecker = "ok" if rc_lc == 0 else "FAILED: " + out_lc[-800:]
+            if rc_lc != 0:
+                ctx.proof_broken = (ctx.proof_broken or "") + " leanchecker rejected AfkakProps.%s: %s" % (pid, out_lc[-800:])
     elif ctx.proof_broken is None:
         ctx.proof_broken = "proof obligations no longer build: " + "; ".join(failing_theorems(out_props, pid)) + "\n" + out_props[-1500:]
     forb = grep_forbidden()
@@ -347,6 +354,7 @@ def _run(ctx, a):
         "open_statements": opens,
         "axioms": axioms,
         "consts_changed": consts_changed,
+        "leanchecker": getattr(ctx, "leanchecker", "not run (quick tier)"),
         "evaluations": res.evaluations,
         "distinct_nontrivial": len(res.distinct),
         "rule": res.rule,
